@@ -30,14 +30,18 @@ RULE = (
     'of its prerequisite expressions is true with off-group atoms taken as '
     'satisfied and in-group atoms evaluated on outputs that in-group jobs '
     'submitted after the trigger (or live at the trigger) have actually '
-    'produced by then; (all run) if the run then ends by itself every '
+    'produced by then; (not stranded) a triggered member that is waiting with nothing left to '
+    'wait for, unqueued, for 10 consecutive iterations of a running '
+    'scheduler is a violation (job preparation failures with submission '
+    'retry delays are injected); (all run) if the run then ends by itself every '
     'member whose in-group prerequisites were producible ran. Distinct = '
     'distinct (program, resolved commands); non-trivial = a group of >= 2 '
     'members with an in-group edge, or a member that was live, held or '
     'finished at the trigger.')
 ASSUMPTIONS = [
     'members are re-run at most once per trigger because the generated '
-    'tasks have no retry delays',
+    'tasks have no execution retry delays and submissions themselves never '
+    'fail (only job preparation may, which submits nothing)',
 ]
 TIERS = {
     'quick': {'n': 1200, 'budget_s': 420, 'chunk': 8},
@@ -48,7 +52,7 @@ EXPECTED_PROBES = ['group_rooted_at_finished_task', 'group_rooted_at_live_task',
                    'member_unspawned_at_trigger', 'trigger_while_paused',
                    'flow_new', 'in_group_order_checked', 'start_checked']
 KNOBS = {'span': (2, 4), 'n_tasks': (3, 6), 'p_custom': 0.3, 'p_retries': 0.0,
-         'p_submit_retries': 0.0, 'p_runahead': 0.3, 'p_future': 0.0,
+         'p_submit_retries': 0.3, 'p_runahead': 0.3, 'p_future': 0.0,
          'p_lone': 0.2}
 K_START = 3
 
@@ -204,6 +208,7 @@ class TriggerWatch(Monitor):
         self.trigs = []
         self.nontrivial = False
         self.cur_new = None
+        self.idle = {}
 
     def attach(self, h, res, case):
         self.res = res
@@ -446,6 +451,38 @@ class TriggerWatch(Monitor):
             return
         res = self.res
         prog = res.prog
+        # a triggered member that is ready (nothing left to wait for) must not
+        # sit unqueued: the main loop never queues manually triggered tasks,
+        # so nothing would ever run it
+        if not h.schd.is_paused and h.schd.stop_mode is None:
+            members = set()
+            for tr in self.trigs:
+                members |= tr.group
+            seen = set()
+            for i in h.schd.pool.get_tasks():
+                if i.tdef.name not in prog.tasks:
+                    continue
+                m = (i.tdef.name, prog.ppoint(str(i.point)))
+                if m not in members:
+                    continue
+                st = i.state
+                if (st.status == 'waiting' and not st.is_queued
+                        and not st.is_held and not st.is_runahead
+                        and st.prerequisites_all_satisfied()
+                        and st.xtriggers_all_satisfied()
+                        and st.external_triggers_all_satisfied()
+                        and not i.waiting_on_job_prep):
+                    seen.add(m)
+                    n = self.idle.get(m, 0) + 1
+                    self.idle[m] = n
+                    if n == 10:
+                        res.violate('triggered_member_ready_but_never_submitted', {
+                            'member': i.identity, 'iterations': n,
+                            'manual': bool(i.is_manual_submit),
+                            'submit_num': i.submit_num, 't': CLOCK.t})
+            for m in list(self.idle):
+                if m not in seen:
+                    del self.idle[m]
         for tr in self.trigs:
             if not tr.proxies_recorded:
                 tr.proxies_recorded = True
@@ -475,6 +512,11 @@ class TriggerWatch(Monitor):
                     continue
                 if m[1] > res.model.stop or not res.model.valid(*m):
                     continue
+                if i is not None and (i.state.status in (
+                        'submit-failed', 'failed', 'succeeded') or any(
+                        x.startswith('_cylc_') for x in i.state.xtriggers)):
+                    continue    # it did start: job preparation failed, and
+                                # it now waits for its submission retry
                 stale = self.stale_msgs(tr, {m})
                 preds = ['stale_job_message_after_respawn'] if stale else []
                 if (i is not None and tr.state.get(m) is None
@@ -500,11 +542,15 @@ def run(params):
     seed = params['seed']
     rng = random.Random(derive_seed(seed, 'c28'))
     gkw = swarm_gkw(rng)
-    rates = RATES_NONE if rng.random() < 0.6 else RATES_SCHED
+    rates = dict(RATES_NONE if rng.random() < 0.6 else RATES_SCHED)
+    if rng.random() < 0.5:
+        # job preparation may fail (script check) before any submission:
+        # tasks with submission retry delays then go back to waiting
+        rates['job_prep_fail'] = 0.1
     paused = rng.random() < 0.3
     case = Case(seed, knobs=KNOBS, rates=rates,
                 policy=rng.choice(['complete', 'complete', 'any']),
-                plan_kw={'p_fail': 0.15}, gkw=gkw,
+                plan_kw={'p_fail': 0.15, 'p_subfail': 0.0}, gkw=gkw,
                 opts={'paused_start': True} if paused else {})
     case.choices = params.get('choices')
     case.build()
